@@ -32,14 +32,17 @@ RULE = ("random type-aware format strings over the event's own keys: attribute/i
         "...) and in the middle of a path; conversions !r !s !a; format "
         "specs valid for the value's type (width, precision, type codes, fill/align, nested {w}); repeated "
         "fields; literal braces; values: ints, floats, strs (non-ASCII, braces, surrogates), bytes, None, "
-        "bools, nested containers, objects with deterministic __str__/__repr__/__format__, pure callables.  "
+        "bools, nested containers, objects with deterministic __str__/__repr__/__format__, pure callables, values and "
+        "callables whose str / repr / call flattens and formats ANOTHER event re-entrantly (placed between repeated fields "
+        "of the outer format, the nested event using the same field names).  "
         "Distinct = (format string, value recipe); non-trivial = at least one field.")
 ASSUMPTIONS = ["trusted base: the recipe->object builder and the Poison class of this module",
                "the original event's text (t0) is the reference; no independent formatter model is used"]
 SHARDS = {"quick": 4, "thorough": 16}
 FLOORS = {"compared_flat": 5000, "compared_json": 5000, "compared_decoration": 5000, "fields_total": 10000,
           "fields_repeated": 500, "fields_with_path": 3000, "fields_end_call": 300, "poisoned_values": 5000,
-          "agree": 3000, "repeated_counter_calls": 50, "fields_terminal_call_after_index_path": 800, "fields_path_3plus": 1500}
+          "agree": 3000, "repeated_counter_calls": 50, "fields_terminal_call_after_index_path": 800, "fields_path_3plus": 1500,
+          "reentrant_flatten_between_repeats": 1500}
 READY = True
 
 
@@ -78,8 +81,42 @@ class Obj:
         return format(str(self), spec)
 
 
+def _nested_text(names, mode):
+    """Flatten and format ANOTHER event (what a value does whose __str__ logs to a JSON / flattening observer)."""
+    from twisted.logger import eventAsJSON, eventFromJSON, formatEvent
+    from twisted.logger._flatten import flattenEvent
+
+    e = {"log_format": " ".join("{%s}" % n for n in names)}
+    for n in set(names):
+        e[n] = "n-" + n
+    if mode == "json":
+        return formatEvent(eventFromJSON(eventAsJSON(e)))
+    flattenEvent(e)
+    return formatEvent(e)
+
+
+class Reflat:
+    """Deterministic value whose str/repr flatten and format another event re-entrantly."""
+
+    def __init__(self, names, mode):
+        self._names, self._mode = names, mode
+
+    def __str__(self):
+        return "N<%s>" % _nested_text(self._names, self._mode)
+
+    def __repr__(self):
+        return "NR<%s>" % _nested_text(self._names, self._mode)
+
+    def __format__(self, spec):
+        return format(str(self), spec)
+
+
 def build(r):
     k = r[0]
+    if k == "reflat":
+        return Reflat(r[1], r[2])
+    if k == "callflat":
+        return lambda names=r[1], mode=r[2]: "C<%s>" % _nested_text(names, mode)
     if k in ("int", "str"):
         return r[1]
     if k == "float":
@@ -151,13 +188,16 @@ def g_value(rng, depth=0, inside=False):
     if c == 10:
         keys = rng.sample(DKEYS, rng.randrange(1, 3)) + ([rng.choice([0, 5])] if rng.random() < 0.3 else [])
         return ["dict", [[k, g_value(rng, depth + 1, True)] for k in keys]]
+    if c == 11 and not inside and rng.random() < 0.15:
+        return [rng.choice(["reflat", "callflat"]), rng.sample(["a", "b", "c", "obj", "f", "item", "w"], rng.randrange(1, 3)) * rng.randrange(1, 3),
+                rng.choice(["flatten", "json"])]
     if c == 11:
         if rng.random() < 0.25:
             # deterministic but stateful: every call returns the next integer (each formatting gets
             # fresh objects), so repeated "{f()}" fields must be evaluated once per occurrence, in order
             return ["counter", ["int", rng.choice([0, 10, 41])]]
         v = g_value(rng, depth + 1)
-        return v if v[0] in ("call", "counter") else ["call", v]  # "x()()" is not part of the format syntax
+        return v if v[0] in ("call", "counter", "callflat") else ["call", v]  # "x()()" is not part of the format syntax
     attrs = [[a, g_value(rng, depth + 1)] for a in rng.sample(ATTRS, rng.randrange(1, 4))]
     return ["obj", rng.choice(["o", "p", "q\xfc"]), rng.choice(["plain", "plain", "custom"]), attrs]
 
@@ -203,12 +243,12 @@ def walk(rng, r, maxsteps):
     steps = 0
     while True:
         k = r[0]
-        if k in ("call", "counter"):  # a callable must be called (its str is not deterministic)
+        if k in ("call", "counter", "callflat"):  # a callable must be called (its str is not deterministic)
             path += "()"
             shape += "C"
             ncalls += 1
             last_was_call_at = len(path)
-            r = r[1]
+            r = r[1] if k != "callflat" else ["str", "dynamic"]
             continue
         if steps >= maxsteps:
             break
@@ -258,7 +298,7 @@ def g_field(rng, keys, recipes):
         spec = rng.choice(["", "", "d", ">6"])
     elif k == "float":
         spec = rng.choice(FLOAT_SPECS)
-    elif k == "str" or k == "level" or (k == "obj" and final[2] == "plain"):
+    elif k == "str" or k == "level" or k == "reflat" or (k == "obj" and final[2] == "plain"):
         spec = rng.choice(STR_SPECS) if k != "level" else ""
     elif k == "obj":
         spec = rng.choice(ANY_SPECS)
@@ -285,7 +325,34 @@ def ftext(f, conv=None, spec=None):
 LITS = ["", "", " ", "text ", "{{", "}}", "\xe9", "\n", ": ", "%s", "{{}}", "a=", " / "]
 
 
+def g_reentrant_case(rng):
+    """{peer} ... {session} ... {peer}: a repeated field before and after a value whose str / repr / call flattens
+    another event that mentions the same field names."""
+    def fld(name, conv="", ncalls=0):
+        return {"name": name, "shape": "C" * ncalls, "counter": False, "conv": conv, "spec": "", "mid": False, "ncalls": ncalls,
+                "custom": False, "haspath": bool(ncalls)}
+
+    kind = rng.choice(["reflat", "reflat", "callflat"])
+    names = rng.choice([["peer", "peer"], ["peer"], ["peer", "w", "peer"], ["session", "peer", "peer", "peer"], ["w", "w"]])
+    recipes = {"peer": rng.choice([["str", "10.0.0.1"], ["int", 7], ["obj", "o", "plain", [["x", ["int", 1]]]]]),
+               "session": [kind, names, rng.choice(["flatten", "json"])], "w": ["int", 6], "p": ["int", 1]}
+    sess = fld("session()", rng.choice(["", "r", "s"]), 1) if kind == "callflat" else fld("session", rng.choice(["", "", "r", "s"]))
+    fields = [fld("peer", rng.choice(["", "", "r"])), sess, fld("w")]
+    order = rng.choice([[0, 1, 0], [0, 1, 0, 0], [0, 0, 1, 0], [1, 0, 0], [0, 1, 2, 0, 2], [2, 1, 2], [0, 1, 1, 0]])
+    parts = []
+    for i in order:
+        parts += [["lit", rng.choice(LITS)], ["field", i]]
+    parts.append(["lit", rng.choice(LITS)])
+    used = sorted(set(order))
+    remap = {old: new for new, old in enumerate(used)}
+    fields = [fields[i] for i in used]
+    parts = [[k, remap[x]] if k == "field" else [k, x] for k, x in parts]
+    return {"values": [[k, recipes[k]] for k in recipes], "fields": fields, "parts": parts, "deco": [], "reentrant": True}
+
+
 def g_case(rng):
+    if rng.random() < 0.1:
+        return g_reentrant_case(rng)
     keys = rng.sample(["a", "b", "c", "obj", "f", "item", "d\xe9"], rng.randrange(1, 5))
     recipes = {k: g_value(rng) for k in keys}
     for k in ("peers", "table"):
@@ -457,6 +524,10 @@ def check_case(ctx, case, idx=None):
     for kind, x in case["parts"]:
         if kind == "field":
             uses[x] = uses.get(x, 0) + 1
+    if case.get("reentrant"):
+        ctx.count("reentrant_flatten_between_repeats")
+    if any(r[0] in ("reflat", "callflat") for k, r in case["values"]):
+        ctx.count("cases_with_reflattening_values")
     for i, f in enumerate(case["fields"]):
         sh = f.get("shape", "")
         if sh:
